@@ -47,7 +47,13 @@ def gen_rename_case(rng):
         variants.append({'rho': rho, 'tree': rename_tree(tree, rho),
                          'betas': {rho[n]: b for n, b in betas.items()},
                          'override': {rho[n]: v for n, v in over.items()}})
-    return {'tree': tree, 'betas': betas, 'rows': g.rows(3), 'variants': variants, 'override': over}
+    # a history of partial dictionaries for ONE prepared expression (persistent IdManager)
+    hist = []
+    for _ in range(rng.randint(2, 4)):
+        hist.append({n: float(rng.randint(-8, 8)) / 4.0 for n in free if rng.random() < 0.5})
+    if rng.random() < 0.5:
+        hist.append({})
+    return {'tree': tree, 'betas': betas, 'rows': g.rows(3), 'variants': variants, 'override': over, 'history': hist}
 
 
 def stream_rename(ctx):
@@ -120,6 +126,19 @@ def stream_rename(ctx):
                 elif abs(vr['loglike'] - base) > 1e-9 * (1 + abs(base)):
                     ctx.violation('C03/rename/loglike-changes', 'the log likelihood changes under a bijective renaming of the parameters',
                                   {**light, 'rho': rho}, base, vr['loglike'])
+        # history: every call is judged against init values overridden by THAT call's dictionary only
+        if isinstance(r.get('history'), list):
+            for step, (d, vals) in enumerate(zip(c['history'], r['history'])):
+                if not isinstance(vals, list):
+                    continue
+                envb = {n: b['value'] for n, b in c['betas'].items()}
+                for n, v in d.items():
+                    if not c['betas'][n]['fixed']:
+                        envb[n] = v
+                for row, v in zip(c['rows'], vals):
+                    vcases.append({'expr': plain, 'env': {'beta': envb, 'var': row}, 'observed': v})
+                    meta.append((c, {**light, 'history': c['history'], 'step': step},
+                                 f'call {step} of a history of partial dictionaries on one prepared expression'))
     verdicts = check_values(ctx, 'c03', vcases, relbits=-30)
     und = 0
     for (c, light, what), (v, info) in zip(meta, verdicts):
